@@ -231,6 +231,11 @@ func (c *client) reconnecting() {
 
 			if err == nil {
 				c.Logger.Info("reconnect success")
+				// every successful recovery starts afresh: the attempt
+				// budget counts consecutive failures, and heartbeats of
+				// the replaced connection are no longer awaited
+				c.reconnectCount = 0
+				c.lastKeepaliveId = 0
 				if c.afterReconnected != nil {
 					c.afterReconnected()
 				}
